@@ -191,6 +191,12 @@ pub enum Op {
     IndexMutKey(Tgt, &'static str, Leaf),
     IndexMutIdx(Tgt, usize, Leaf),
     PointerMutEmptyAssign(usize, Leaf),
+    /// the target is replaced by a value built with repeated keys: 0 = `json!` literal, 1 =
+    /// `to_value` of a map that emits a key twice, 2 = `object!` literal (last occurrence wins,
+    /// as for serde_json's builders)
+    AssignBuiltWithRepeatedKey(Tgt, usize),
+    /// the doc-hidden primitive behind the builders, on a key that is present / absent
+    ValueInsertPrimitive(Tgt, &'static str, Leaf),
     GetMutIdxAssign(Tgt, usize, Leaf),
     Take(Tgt),
     CloneLive(Tgt),
@@ -260,6 +266,13 @@ pub fn ops() -> Vec<Op> {
     v.push(Push(Tgt::PathA1(0), One));
     v.push(ObjInsert(Tgt::PathA1(0), "q", One));
     v.push(PointerMutEmptyAssign(0, One));
+    for t in [Tgt::Root(0), Tgt::KeyA(0)] {
+        for how in 0..3 {
+            v.push(AssignBuiltWithRepeatedKey(t, how));
+        }
+        v.push(ValueInsertPrimitive(t, "a", Str));
+        v.push(ValueInsertPrimitive(t, "fresh", One));
+    }
     v.push(DropLive(0));
     v.push(DropLive(1));
     v.push(AssignCloneInto(0, Tgt::Root(1)));
@@ -764,6 +777,60 @@ pub fn apply(op: &Op, live: &mut Vec<Value>, model: &mut Vec<R>) -> Result<(), S
                 (Some(true), Ok(Some(()))) => {}
                 (Some(false), Err(_)) => {}
                 (w, g) => return Err(format!("value[index] = x: implementation {:?} vs model {:?}", g, w)),
+            }
+        }
+        Op::AssignBuiltWithRepeatedKey(t, how) => {
+            if tgt_live(*t) >= live.len() {
+                return Ok(());
+            }
+            struct Dup;
+            impl serde::Serialize for Dup {
+                fn serialize<S: serde::Serializer>(&self, s: S) -> Result<S::Ok, S::Error> {
+                    use serde::ser::SerializeMap;
+                    let mut m = s.serialize_map(Some(3))?;
+                    m.serialize_entry("k", &1)?;
+                    m.serialize_entry("z", &[true])?;
+                    m.serialize_entry("k", "second")?;
+                    m.end()
+                }
+            }
+            let built = guard(|| match how {
+                0 => sonic_rs::json!({"k": 1, "z": [true], "k": "second"}),
+                1 => sonic_rs::to_value(&Dup).expect("to_value"),
+                _ => sonic_rs::Value::from(sonic_rs::object! {"k": 1, "z": [true], "k": "second"}),
+            })?;
+            let want: BTreeMap<String, R> = [("k".to_string(), R::Str("second".into())), ("z".to_string(), R::Arr(vec![R::Bool(true)]))].into_iter().collect();
+            match (impl_target(live, *t), model_target(model, *t)) {
+                (Some(v), Some(m)) => {
+                    *v = built;
+                    *m = R::Obj(want);
+                }
+                (None, None) => {}
+                _ => return Err("target presence differs from the model".into()),
+            }
+        }
+        Op::ValueInsertPrimitive(t, k, l) => {
+            let (lv, lm) = match (leaf_value(*l, live), leaf_model(*l, model)) {
+                (Some(a), Some(b)) => (a, b),
+                _ => return Ok(()),
+            };
+            if tgt_live(*t) >= live.len() {
+                return Ok(());
+            }
+            let is_obj = matches!(model_target(model, *t), Some(R::Obj(_)));
+            if is_obj {
+                let r = guard(|| {
+                    let v = impl_target(live, *t).expect("target");
+                    let slot = v.insert(k, lv);
+                    v_dumps(slot)
+                })?;
+                if let Some(R::Obj(m)) = model_target(model, *t) {
+                    m.insert(k.to_string(), lm.clone());
+                }
+                let w = r_dumps(&lm);
+                if r != w {
+                    return Err(format!("Value::insert returned a slot holding {r}, expected {w}"));
+                }
             }
         }
         Op::PointerMutEmptyAssign(i, l) => {
